@@ -512,6 +512,111 @@ def macro_unsafe_hygiene(chk, prog):
         chk.discharge(key)
 
 
+def static_reference_expansion(chk):
+    """R: `static_reference!` as expanded in a downstream crate (witness/todyn, fn stat::make).  The pointer handed to the unsafe
+    Reference::from_ptr must be the address of the expansion's own `static` item itself - reached through address-of, moves and
+    pointer casts only - and nothing else in the expansion may receive or write through that address: the object then lives for
+    ever and is never replaced, which is the justification of the unsafe call the caller never sees."""
+    from rules import C17
+    key = "R:static_reference-expansion"
+    chk.obligation(key, "the Reference built by static_reference! points at the expansion's own static item")
+    facts, err = C17.todyn_facts((), None)
+    if facts is None:
+        chk.violation("C16.R", key + ":build", "the downstream witness using static_reference! does not compile: %s" % err[-500:])
+        return
+    fs = [f for f in facts["fns"] if f["name"] == "make" and "body" in f and "stat" in f.get("pretty", f["did"])]
+    if len(fs) != 1:
+        raise AnchorMissing("witness stat::make")
+    body = fs[0]["body"]
+    chk.analysed("rrtk_todyn_witness::stat::make (expansion of static_reference!)")
+    defs = {}
+    for bb in body["blocks"]:
+        for st in bb["stmts"]:
+            if st["k"] == "assign" and not st["place"]["p"]:
+                defs.setdefault(st["place"]["l"], []).append(st["rv"])
+        t = bb["term"]
+        if t["k"] == "call" and not t["dest"]["p"]:
+            defs.setdefault(t["dest"]["l"], []).append({"k": "callresult", "fn": t["func"].get("fn", {}).get("pretty", "?")})
+    calls = [bb["term"] for bb in body["blocks"] if bb["term"]["k"] == "call"]
+    ctor = [t for t in calls if t["func"].get("ck") == "fn" and t["func"]["fn"]["name"] == "from_ptr" and "Reference" in t["func"]["fn"]["pretty"]]
+    ok = True
+    if len(ctor) != 1:
+        chk.violation("C16.R", key + ":shape", "the expansion calls Reference::from_ptr %d times, expected once" % len(ctor))
+        return
+    statics = set()
+
+    def origin(l, seen):
+        """None if local l is the address of a static of the expansion through address-of / moves / pointer casts; else what it is"""
+        if l in seen:
+            return None
+        seen = seen | {l}
+        ds = defs.get(l, [])
+        if not ds:
+            return "local _%d has no definition (an argument?)" % l
+        for rv in ds:
+            k = rv["k"]
+            if k == "use" and rv["op"]["k"] == "const" and rv["op"].get("ck") == "static":
+                if not rv["op"].get("local"):
+                    return "a static of another crate (%s)" % rv["op"].get("did")
+                statics.add(rv["op"]["did"])
+                continue
+            if k == "use" and rv["op"]["k"] in ("move", "copy") and not rv["op"]["place"]["p"]:
+                r = origin(rv["op"]["place"]["l"], seen)
+            elif k == "rawptr" and [x["k"] for x in rv["place"]["p"]] == ["deref"]:
+                r = origin(rv["place"]["l"], seen)
+            elif k == "cast" and rv["op"]["k"] in ("move", "copy") and not rv["op"]["place"]["p"] and rv.get("ty", {}).get("k") == "ptr":
+                r = origin(rv["op"]["place"]["l"], seen)
+            elif k == "callresult":
+                r = "the value returned by %s" % rv["fn"]
+            else:
+                r = "computed by `%s`" % k
+            if r is not None:
+                return r
+        return None
+    a = ctor[0]["args"][0]
+    why = "a constant" if a["k"] == "const" else ("a projection" if a["place"]["p"] else origin(a["place"]["l"], frozenset()))
+    chk.evaluated(1, nontrivial=(key, "origin"))
+    if why is not None:
+        chk.violation("C16.R", key + ":origin", "static_reference! hands Reference::from_ptr a pointer that is not the address of its own static item: it is %s; the "
+                      "object behind an earlier Reference from the same call site can then be replaced or dropped while that Reference is alive" % why,
+                      file=loc(ctor[0]["span"]))
+        ok = False
+    # nothing else touches the static
+    derived = set()
+    changed = True
+    while changed:
+        changed = False
+        for l, ds in defs.items():
+            if l in derived:
+                continue
+            for rv in ds:
+                src = None
+                if rv["k"] == "use" and rv["op"]["k"] == "const" and rv["op"].get("ck") == "static":
+                    src = True
+                elif rv["k"] in ("use", "cast") and rv["op"]["k"] in ("move", "copy"):
+                    src = rv["op"]["place"]["l"] in derived
+                elif rv["k"] in ("rawptr", "ref"):
+                    src = rv["place"]["l"] in derived
+                if src:
+                    derived.add(l)
+                    changed = True
+    for bb in body["blocks"]:
+        for st in bb["stmts"]:
+            if st["k"] == "assign" and st["place"]["p"] and st["place"]["l"] in derived:
+                chk.violation("C16.R", key + ":store", "the expansion of static_reference! writes through the address of its static at run time", file=loc(st["span"]))
+                ok = False
+        t = bb["term"]
+        if t["k"] == "call" and t is not ctor[0]:
+            for a in t["args"]:
+                if a["k"] in ("move", "copy") and a["place"]["l"] in derived:
+                    chk.violation("C16.R", key + ":escape", "the expansion of static_reference! passes the address of its static to %s as well" % t["func"].get("fn", {}).get("pretty", "?"),
+                                  file=loc(t["span"]))
+                    ok = False
+    chk.evaluated(len(body["blocks"]))
+    if ok:
+        chk.discharge(key)
+
+
 def run(chk):
     prog = load_config("K1")
     chk.configs.append("K1")
@@ -523,6 +628,7 @@ def run(chk):
     chk.rule("C16.X", "unsafe constructor calls in the downstream expansion of to_dyn! receive the payload of the same-kind variant of the converted Reference through moves and pointer casts only (the validity invariant established when that Reference was built carries over)")
     chk.rule("C16.M", "exported macros never expand caller-supplied expressions inside their own unsafe blocks")
     chk.rule("C16.S", "raw-pointer -> Reference conversions are unsafe fn; Reference payload private")
+    chk.rule("C16.R", "static_reference! builds its Reference from the address of its own static item, which nothing else in the expansion touches")
     sim = S.Sim(prog)
     maxn = 5 if chk.tier == "quick" else 8
     for name in ("SumStream", "ProductStream"):
@@ -550,6 +656,11 @@ def run(chk):
             chk.configs.append(cfg)
             sub_ops = W.unsafe_ops(p2)
             chk.extra["unsafe_ops_" + cfg] = len(sub_ops)
+    static_reference_expansion(chk)
+    # a Borrow of a counted / locked Reference must carry the guard, a clone must take its count: otherwise safe code holds a
+    # borrow or a Reference past the drop of the object (the table is C17's, evaluated here too)
+    from rules import C17
+    C17.reference_tables(chk, prog, S.Sim(prog))
     import witness
     # variance of Reference<T> in the feature-less build (only the raw-pointer variant exists there): a compile-fail witness with a
     # compiling twin; a covariant payload (NonNull<T> instead of *mut T) lets safe code shorten Reference<&'static str>
